@@ -61,14 +61,18 @@ def visit(acc, blk, vec, asg, idx):
         acc["samples"].append({"vector": vec, "scores": got})
 
 
+def blocks(tier):
+    return spaces.v2_blocks(tier)
+
+
 def run(ctx, res):
     n_off = official.validate("2", model)
     ctx.log("reference model reproduces %d official v2 vectors" % n_off)
-    blocks = spaces.v2_blocks(ctx.tier)
-    accs = product.run(ctx, blocks, visit, sweep.new_acc)
+    blocks_ = blocks(ctx.tier)
+    accs = product.run(ctx, blocks_, visit, sweep.new_acc)
     tot = sweep.merge(accs)
     amb = sum(a["extra"].get("ambiguous", 0) for a in accs)
-    sweep.fill(res, ctx, tot, blocks,
+    sweep.fill(res, ctx, tot, blocks_,
                "every point of the listed product blocks over the v2 metric tables is constructed "
                "with the real CVSS2 class and its scores() compared with the exact-rational model; "
                "points are distinct by construction; non-trivial = base score is not 0.0",
@@ -91,3 +95,7 @@ def replay(case):
         raise core.HarnessError("replay input is not a valid v2 vector")
     why, obs, exp = judge(vec, dict(got))
     return bool(why), why or "scores %r as the guide's equations" % (obs,)
+
+
+def replay_task(case):
+    return product.replay_task(blocks(case.get("tier") or "quick"), visit, sweep.new_acc, case)
